@@ -609,6 +609,7 @@ def judge_features(ctx, w, case, path, before):
         else:
             fail(ctx, w, f"C19-feature-{k}", f"feature '{k}' does not work on the migrated database as on a new one", case,
                  {"migrated": res.get(k), "new": w.ref_features.get(k)})
+    compare_features(ctx, w, case, L.read_schema(str(path))[0], res, "C19.features.migrated")
     ctx.hit("feature-smoke")
 
 
@@ -715,6 +716,66 @@ def judge_new_columns(ctx, w, case, before, after):
                     bad.append([t, c])
     if bad:
         fail(ctx, w, "C19-new-column-not-null", f"columns added by the migration are not NULL on the old rows: {bad[:6]}", case, bad)
+
+
+# ---------------------------------------------------------------------------------------------
+# "all current features work on it": the model's `usable` (request "features") vs using each feature on real files
+
+
+def model_usable(ctx, schema):
+    ans = ctx.lean.ask({"p": "C19", "q": "features", "schema": [[t, schema[t]] for t in sorted(schema)]})
+    return None if "driver_error" in ans else ans
+
+
+def compare_features(ctx, w, case, schema, res, clause):
+    """res: feature -> what feature_smoke got; a feature *works* when it gives what it gives on a new database"""
+    ans = model_usable(ctx, schema)
+    if ans is None:
+        ctx.disagree(f"{clause}.driver", case, None, None)
+        return
+    real = {k: res.get(k) == w.ref_features.get(k) for k in FEATURES}
+    model = {k: bool(ans["usable"].get(k)) for k in FEATURES}
+    if real != model:
+        ctx.disagree(clause, case, {k: [real[k], str(res.get(k))[:80]] for k in FEATURES if real[k] != model[k]},
+                     {k: model[k] for k in FEATURES if real[k] != model[k]})
+    ctx.hit(f"features-compared:{'all' if all(real.values()) else 'some' if any(real.values()) else 'none'}-work")
+
+
+def check_features_table(ctx, w):
+    """the generated needs are what the mappers say now; every feature the harness uses is in the table"""
+    ans = model_usable(ctx, w.orm)
+    if ans is None:
+        ctx.disagree("C19.features.driver", {}, None, None)
+        return
+    live = {f: [list(tc) for tc in need] for f, need in T.feature_needs()}
+    if json.dumps(ans["needs"], sort_keys=True) != json.dumps(live, sort_keys=True) or sorted(live) != sorted(FEATURES):
+        ctx.disagree("C19.generated-table.features", {"what": "feature needs in Generated/C19.lean are not the mappers'"}, live, ans["needs"])
+    if not ans["all"]:
+        ctx.disagree("C19.features.mapping-unusable", {}, True, ans["usable"])
+
+
+def unmigrated_features(ctx, w, variant):
+    """use every feature on the historic file *as it is* (the migration switched off): works exactly where the
+    model says the schema supports it"""
+    f = tmp(w, "raw")
+    build_file(w, f, variant, "none")
+    before = L.read_schema(str(f))
+    case = {"variant": variant, "rev": "none", "label": "features-without-migration"}
+    migrator.migrate = lambda session: None  # shadows the method on this instance only
+    try:
+        try:
+            _snap, res = feature_smoke(f)
+        except Exception as e:
+            res = {k: f"ERR:open:{type(e).__name__}" for k in FEATURES}
+    finally:
+        del migrator.migrate
+    after = L.read_schema(str(f))
+    f.unlink(missing_ok=True)
+    if (after[0], after[1]) != (before[0], before[1]):  # the switch did not hold: nothing to compare
+        ctx.hit("unmigrated-probe-not-isolated")
+        return
+    ctx.case(case, nontrivial=True)
+    compare_features(ctx, w, case, before[0], res, "C19.features.unmigrated")
 
 
 # ---------------------------------------------------------------------------------------------
@@ -885,6 +946,12 @@ def run(ctx):
         js = range(0, nstmt) if thorough else ctx.rng.sample(range(0, nstmt), k=2)
         for j in js:
             run_tree(ctx, w, variant, rev, 2, cfg, crash=j, smoke="none")
+    # features on the historic files without migration (two-sided tie of `usable`)
+    check_features_table(ctx, w)
+    names = list(w.variants)
+    fixed = [n for n in ("A8", "F") if n in names]  # a shape on which some features work and others do not; a current one
+    for variant in (names if thorough else fixed + ctx.rng.sample([n for n in names if n not in fixed], k=min(len(names) - len(fixed), 5))):
+        unmigrated_features(ctx, w, variant)
     ctx.notes["exhaustive"] = bool(thorough)
     ctx.notes["open_routes"] = Rec.routes
     ctx.notes["history_depth"] = depth
